@@ -372,4 +372,62 @@ theorem exec_frame (g : Bool) (a : Act) : ∀ s, Frame s (exec g a s).1 := by
         · exact Frame.refl s
         · split <;> exact Frame.refl s
 
+/-! ### coders without tag flags (every coder built from public options) -/
+
+/-- No `string`/`format` tag state in the struct: true of every coder constructed from public options
+(`newCoder_tagFree`); the tag flags are internal and only set while a struct member is being processed. -/
+def TagFree (s : Struct) : Prop :=
+  s.flags.presence.getLsbD 27 = false ∧ s.flags.presence.getLsbD 28 = false ∧
+  s.flags.values.getLsbD 27 = false ∧ s.flags.values.getLsbD 28 = false ∧ s.format = []
+
+instance (s : Struct) : Decidable (TagFree s) := by unfold TagFree; infer_instance
+
+theorem within_bits (i : Nat) : W.withinArshalCall.getLsbD i = decide (i = 3) := bits_within i
+
+/-- Within the frame and without tag state: only the presence bit of WithinArshalCall can differ. -/
+theorem intact_of_frame {s s' : Struct} (h : Frame s s') (ht : TagFree s) :
+    s'.flags.values = s.flags.values ∧
+    (s'.flags.presence = s.flags.presence ∨ s'.flags.presence = s.flags.presence ||| W.withinArshalCall) ∧
+    s'.indent = s.indent ∧ s'.indentPrefix = s.indentPrefix ∧ s'.byteLimit = s.byteLimit ∧ s'.depthLimit = s.depthLimit ∧
+    s'.marshalers = s.marshalers ∧ s'.unmarshalers = s.unmarshalers ∧ s'.format = s.format := by
+  obtain ⟨p27, p28, v27, v28, hf⟩ := ht
+  have tag27 := h.tags 27 (.inl rfl)
+  have tag28 := h.tags 28 (.inr rfl)
+  have hp27 : s'.flags.presence.getLsbD 27 = false := by rcases tag27 with ⟨a, _⟩ | ⟨a, _⟩ <;> simp_all
+  have hp28 : s'.flags.presence.getLsbD 28 = false := by rcases tag28 with ⟨a, _⟩ | ⟨a, _⟩ <;> simp_all
+  have hv27 : s'.flags.values.getLsbD 27 = false := by rcases tag27 with ⟨_, a⟩ | ⟨_, a⟩ <;> simp_all
+  have hv28 : s'.flags.values.getLsbD 28 = false := by rcases tag28 with ⟨_, a⟩ | ⟨_, a⟩ <;> simp_all
+  refine ⟨?_, ?_, h.indent, h.indentPrefix, h.byteLimit, h.depthLimit, h.marshalers, h.unmarshalers, ?_⟩
+  · apply BitVec.eq_of_getLsbD_eq; intro i _
+    by_cases h27 : i = 27
+    · subst h27; rw [hv27, v27]
+    · by_cases h28 : i = 28
+      · subst h28; rw [hv28, v28]
+      · exact h.vals i h27 h28
+  · have hrest : ∀ i, i ≠ 3 → s'.flags.presence.getLsbD i = s.flags.presence.getLsbD i := by
+      intro i h3
+      by_cases h27 : i = 27
+      · subst h27; rw [hp27, p27]
+      · by_cases h28 : i = 28
+        · subst h28; rw [hp28, p28]
+        · exact h.pres i h3 h27 h28
+    cases hs3 : s.flags.presence.getLsbD 3
+    · cases hs3' : s'.flags.presence.getLsbD 3
+      · left; apply BitVec.eq_of_getLsbD_eq; intro i _
+        by_cases h3 : i = 3
+        · subst h3; rw [hs3, hs3']
+        · exact hrest i h3
+      · right; apply BitVec.eq_of_getLsbD_eq; intro i _
+        rw [BitVec.getLsbD_or, within_bits]
+        by_cases h3 : i = 3
+        · subst h3; simp [hs3']
+        · simp [h3, hrest i h3]
+    · left; apply BitVec.eq_of_getLsbD_eq; intro i _
+      by_cases h3 : i = 3
+      · subst h3; rw [hs3, h.within hs3]
+      · exact hrest i h3
+  · rcases h.format with f | f
+    · exact f
+    · rw [f, hf]
+
 end JsonV.Lemmas.ScopeL
